@@ -328,6 +328,8 @@ pub fn c11_pins() -> Vec<(&'static str, &'static str, &'static str)> {
         ("blank_inside_aligned", "aligned(256) const char t[2] = {1, 2};\nvoid main() {}\n", "aligned( 256 ) const char t[2] = {1, 2};\nvoid main() {}\n"),
         ("blank_before_macro_arguments", "#define SQ(x) ((x)+1)\nunsigned char a;\nvoid main() { a = SQ(2); }\n", "#define SQ(x ) ((x)+1)\nunsigned char a;\nvoid main() { a = SQ  (2); }\n"),
         ("macro_call_across_lines", "#define SQ(x) ((x)+1)\nunsigned char a;\nvoid main() { a = SQ(2); }\n", "#define SQ(x) ((x)+1)\nunsigned char a;\nvoid main() { a = SQ\n  (2); }\n"),
+        ("ifdef_extra_blanks", "#define TURBO 1\n#ifdef TURBO\nunsigned char boost;\n#endif\n#ifndef TURBO\nunsigned char slow;\n#endif\nvoid main() { }\n", "#define TURBO 1\n#ifdef   TURBO\nunsigned char boost;\n#endif\n#ifndef  TURBO\nunsigned char slow;\n#endif\nvoid main() { }\n"),
+        ("ifdef_comment_before_name", "#define TURBO 1\nunsigned char s;\n#ifdef TURBO\nunsigned char boost;\n#endif\nvoid main() { s = 1; }\n", "#define TURBO 1\nunsigned char s;\n#ifdef /* fast build */ TURBO\nunsigned char boost;\n#endif /* TURBO */\nvoid main() { s = 1; }\n"),
         ("comment_glues_tokens", "unsigned char a;\nvoid main() { a = 1; }\n", "unsigned/**/char a;\nvoid main() { a = 1; }\n"),
         ("blank_after_hash", "#define N 3\nunsigned char t[N];\nvoid main() {}\n", "# define N 3\nunsigned char t[N];\nvoid main() {}\n"),
     ]
